@@ -125,11 +125,26 @@ Definition check_query (M : model) (q : query) : bool :=
     res_is (call_cells fuel0 (Wo M) s nm args) v && res_is (call_cells fuel0 (Wt M) s nm args) v
   end.
 
-Definition check_model (bi : list string) (c : list stbl * list query) : bool :=
-  forallb (check_query (mk_model (fst c) bi)) (snd c).
 
 (** diagnostics: what the two evaluators return *)
 Definition show_query (bi : list string) (tbl : list stbl) (q : query) : res value * res value :=
   match q with (s, nm, args, _) =>
     (call_cells fuel0 (Wo (mk_model tbl bi)) s nm args, call_cells fuel0 (Wt (mk_model tbl bi)) s nm args)
   end.
+
+(** decidable sufficient condition for [model_ok] (Proofs.v) on dumped tables; the
+    correspondence check evaluates it on every dumped model *)
+Definition stbl_okb (bi : list string) (t : stbl) : bool :=
+  forallb (fun p => fo (snd p)) (s_ns t)
+  && forallb (fun c => negb (mem self_name (fst (snd c))) && no_self (snd (snd c))) (s_cells t)
+  && forallb (fun p => negb (mem (fst p) bi) || mem (fst p) (s_top t)) (s_ns t)
+  && forallb (fun x => match assoc x (s_ns t) with Some _ => true | None => false end) (s_top t)
+  && forallb (fun x => match assoc x (s_ns t) with Some (VCell _ _) => true | _ => false end) (s_cellnames t).
+
+Definition model_okb (tbl : list stbl) (bi : list string) : bool :=
+  forallb (stbl_okb bi) tbl && forallb (fun x => mem x bi) py_fn_names.
+
+(** the per-model check of the correspondence: the dumped model satisfies the hypotheses
+    of the C15 theorems, and both evaluators return the observed values *)
+Definition check_model (bi : list string) (c : list stbl * list query) : bool :=
+  model_okb (fst c) bi && forallb (check_query (mk_model (fst c) bi)) (snd c).
